@@ -22,6 +22,18 @@ type FuncVC struct {
 	Contract   *Contract
 	GenErr     string
 	Instrs     int
+	AutoReplay *AutoReplay // how to call the function with model values (free functions over strings/ints/bools only)
+}
+
+// AutoReplay describes a call of the real function with the solver's values for its parameters.
+type AutoReplay struct {
+	PkgDir, PkgName, Func string
+	Params            []AutoParam
+}
+
+type AutoParam struct {
+	Name, Kind string // Kind: string | int | bool
+	GoType     string
 }
 
 func (ld *Loader) newGen(specs *Specs, opts GenOpts) *Gen {
@@ -100,6 +112,40 @@ func genFunction(ld *Loader, specs *Specs, fn *ssa.Function, ct *Contract, opts 
 		}
 	}
 	tr.params = params
+	// replay recipe: a free function whose parameters are all strings, integers or booleans can be called with the
+	// solver's values directly; those values are requested with every safety obligation
+	if fn.Signature.Recv() == nil && fn.Parent() == nil && fn.Pkg != nil && len(fn.Params) > 0 {
+		ar := &AutoReplay{PkgName: fn.Pkg.Pkg.Name(), Func: fn.Name(), PkgDir: strings.TrimPrefix(strings.TrimPrefix(fn.Pkg.Pkg.Path(), repoModule), "/")}
+		var vals []NamedTerm
+		ok := true
+		for i, p := range fn.Params {
+			b, isBasic := under(p.Type()).(*types.Basic)
+			if !isBasic || len(params[i].C) != 1 {
+				ok = false
+				break
+			}
+			switch {
+			case b.Info()&types.IsString != 0:
+				ar.Params = append(ar.Params, AutoParam{Name: p.Name(), Kind: "string", GoType: types.TypeString(p.Type(), func(*types.Package) string { return "" })})
+				vals = append(vals, NamedTerm{"in$" + p.Name() + "$len", g.strLen(e, params[i].C[0])})
+				for k := 0; k < 48; k++ {
+					vals = append(vals, NamedTerm{fmt.Sprintf("in$%s$%d", p.Name(), k), g.strAt(e, params[i].C[0], intT(int64(k)))})
+				}
+			case b.Info()&types.IsInteger != 0:
+				ar.Params = append(ar.Params, AutoParam{Name: p.Name(), Kind: "int", GoType: types.TypeString(p.Type(), func(*types.Package) string { return "" })})
+				vals = append(vals, NamedTerm{"in$" + p.Name(), params[i].C[0]})
+			case b.Info()&types.IsBoolean != 0:
+				ar.Params = append(ar.Params, AutoParam{Name: p.Name(), Kind: "bool", GoType: types.TypeString(p.Type(), func(*types.Package) string { return "" })})
+				vals = append(vals, NamedTerm{"in$" + p.Name(), params[i].C[0]})
+			default:
+				ok = false
+			}
+		}
+		if ok {
+			vc.AutoReplay = ar
+			g.replayVals = vals
+		}
+	}
 	// no lock has been released by this function yet (see Trans.interfere)
 	st.set("L$relsd$sync.Mutex", tFalse)
 	st.set("L$relsd$sync.RWMutex", tFalse)
@@ -201,6 +247,13 @@ func genFunction(ld *Loader, specs *Specs, fn *ssa.Function, ct *Contract, opts 
 		for _, as := range ct.Asserts {
 			if !g.assertHit[as] {
 				g.specErrors = append(g.specErrors, fmt.Sprintf("%s: assert %s call %s #%d (%s) matches no call site", tr.label, as.When, as.Callee, as.Ordinal, as.Clause.Label))
+			}
+		}
+	}
+	if vc.AutoReplay != nil {
+		for _, o := range e.obls {
+			if isSafetyKind(o.Kind) && o.Kind != "alloc-bound" && o.Kind != "recursion" {
+				o.Values = append(o.Values, g.replayVals...)
 			}
 		}
 	}
